@@ -212,7 +212,9 @@ int main(int argc, char** argv) {
   for (long it = 0; it < n; it++) {
     try {
       Problem P;
+      VECTOR_INEQS = true;
       if (C06_LINES && r.coin(45)) { if (!(r.coin(60) ? make_multi(r, P) : make_singular(r, P))) continue; }
+      else if (!C06_LINES && r.coin(25)) { if (!make_touch(r, P)) continue; }
       else if (!make_problem(r, P)) continue;
       System& sys = *P.sys; IntervalVector root = sys.box;
       double e = r.coin() ? 0.125 : (r.coin() ? 1e-3 : 0.03125);
